@@ -93,8 +93,10 @@ func H_C12_model(v *zzverif.T) {
 		if err != nil || m == nil {
 			return false
 		}
-		v.AssertTensor("C12.model.weight-a:"+tag, m.parameters["a"], []int{n}, wantI)
-		v.AssertTensor("C12.model.weight-b:"+tag, m.parameters["b"], []int{1, n}, wantF)
+		if zzModelParamsVisible {
+			v.AssertTensor("C12.model.weight-a:"+tag, zzModelParam(m, "a"), []int{n}, wantI)
+			v.AssertTensor("C12.model.weight-b:"+tag, zzModelParam(m, "b"), []int{1, n}, wantF)
+		}
 		v.Assert("C12.model.description-left-as-it-was:"+tag, unchanged())
 		return true
 	}
